@@ -979,8 +979,8 @@ Proof.
           + exact Hx.
           + intros j y Hy Hp. destruct (Hall j y Hy Hp) as [->|Hin']; [|exact Hin'].
             exfalso. assert (is_pending (bw s) j = true) by (apply is_pending_spec; eauto). congruence. }
-      destruct H1 as (w1 & <- & HI1 & Hx1 & Hall1).
-      set (w1 := fst (w_stop (bw s) r0)) in *. set (s1 := bset s w1 (bpcv s)) in *.
+      destruct H1 as (w1 & Ew1 & HI1 & Hx1 & Hall1). rewrite <- Ew1 in *.
+      set (s1 := bset s w1 (bpcv s)) in *.
       change (CInv primary others nenv (bset s1 (w_setrst (bw s1) r (Run (FStopAll rs))) (bpcv s1))).
       apply cinv_setrst; [discriminate|exact HI1|exact HW'|].
       intros x0 Hx0. unfold s1 in Hx0. cbn [bset bw] in Hx0. assert (x0 = x) by congruence. subst x0. right.
@@ -990,4 +990,124 @@ Proof.
       intros j y' Hy' Hp. apply regs_setrst_nth in Hy'. destruct Hy' as (y & Hy & [[-> ->]|[_ ->]]).
       * cbn in Hp. discriminate.
       * apply (Hall1 j y Hy Hp).
+Qed.
+
+Definition wfc (primary : option nat) (others : list (option nat)) (nenv : nat) : Prop :=
+  (forall p, primary = Some p -> p < nenv) /\ (forall o, In (Some o) others -> o < nenv).
+
+Lemma RC_nil others s : regs (bw s) = [] -> RC others s.
+Proof. intros H k x Hx. rewrite H in Hx. destruct k; discriminate. Qed.
+
+Lemma cinv_main primary others nenv s s' :
+  wfc primary others nenv -> CInv primary others nenv s ->
+  combine_main true primary others s = Some s' -> CInv primary others nenv s'.
+Proof.
+  intros [Hwp Hwo] HI Hm. pose proof HI as (HW & HN & HG & HR).
+  destruct s as [w pc P R stops]. unfold combine_main in Hm. cbn [bw bpcv bP bR bstops] in *.
+  unfold NInv, GInv in HN, HG. cbn [bw bpcv bP bR bstops] in HN, HG.
+  destruct pc as [|i n| | | |i| |r|r|r]; try discriminate.
+  - (* BStart *)
+    destruct HG as [Hnil Hst]. destruct primary as [p|].
+    + destruct (is_canc (nodes w) p) eqn:Ek; inversion Hm; subst s'; clear Hm.
+      * split; [exact HW|]. split; [left; exists p; auto|]. split; [exact Hnil|apply RC_nil; exact Hnil].
+      * split; [exact HW|]. split; [|split; [split; [exact Hnil|reflexivity]|apply RC_nil; exact Hnil]].
+        unfold NInv. cbn [bw bpcv bP]. split; [|intros _ j o Hj; lia]. split; [lia|]. split; [reflexivity|apply Hwp; reflexivity].
+    + inversion Hm; subst s'; clear Hm. split; [apply WInv_addnode; exact HW|].
+      split; [|split; [split; [exact Hnil|reflexivity]|apply RC_nil; exact Hnil]].
+      unfold NInv. cbn [bw bpcv bP w_detached w_addnode nodes]. split; [|intros _ j o Hj; lia].
+      unfold Pdef. rewrite app_length. cbn [length]. rewrite <- HN.
+      rewrite anc_of_snoc_new, is_canc_snoc_new, vals_of_snoc_new. cbn. repeat (split; [first [lia|reflexivity]|]). reflexivity.
+  - (* BCheck *)
+    destruct HN as [HP Hz]. destruct HG as [Hnil Hst].
+    assert (HRC : forall pc', RC others {| bw := w; bpcv := pc'; bP := P; bR := R; bstops := stops |})
+      by (intros; apply RC_nil; exact Hnil).
+    destruct (nth_error others i) as [[o|]|] eqn:Eo.
+    + destruct (is_canc (nodes w) o) eqn:Ek; inversion Hm; subst s'; clear Hm; (split; [exact HW|]); (split; [|split; [split; assumption|apply HRC]]).
+      * unfold NInv. cbn. split; [exact HP|]. right. exists o. split; [eapply nth_error_In; eauto|exact Ek].
+      * unfold NInv. cbn. split; [exact HP|]. intros; discriminate.
+    + inversion Hm; subst s'; clear Hm. split; [exact HW|]. split; [|split; [split; assumption|apply HRC]].
+      unfold NInv. cbn. split; [exact HP|]. intros Hn0 j o Hj. destruct (Nat.eq_dec j i) as [->|Hne]; [congruence|apply Hz; [exact Hn0|lia]].
+    + destruct (Nat.eqb_spec n 0) as [->|Hn0]; inversion Hm; subst s'; clear Hm; (split; [exact HW|]).
+      * split; [|split; [exact Hnil|apply HRC]]. unfold NInv. cbn. right. split; [reflexivity|]. split; [exact HP|].
+        intros o Hin. apply In_nth_error in Hin. destruct Hin as [j Hj]. apply nth_error_None in Eo.
+        apply (Hz eq_refl j o); [apply nth_error_lt in Hj; lia|exact Hj].
+      * split; [|split; [split; assumption|apply HRC]]. exact HP.
+  - (* BEarlyNew *)
+    destruct HN as [HP Hs]. destruct HG as [Hnil Hst]. inversion Hm; subst s'; clear Hm.
+    split; [apply WInv_addnode; exact HW|]. split; [|split; [exact Hnil|apply RC_nil; exact Hnil]].
+    unfold NInv. cbn [bw bpcv bP bR w_child w_addnode nodes].
+    split; [apply Pdef_snoc; exact HP|]. split; [exact (Rdef_child primary nenv (nodes w) P HP)|].
+    eapply src_mono; [apply mono_snoc|exact Hs].
+  - (* BEarlyCancel *)
+    destruct HN as (HP & HRd & Hs). inversion Hm; subst s'; clear Hm.
+    pose proof (cinv_cancel primary others nenv _ R HI (or_intror (conj eq_refl (conj eq_refl Hs)))) as (HW1 & HN1 & HG1 & HR1).
+    cbn [bset bw bpcv bP bR bstops] in *. unfold NInv, GInv in HN1, HG1. cbn [bw bpcv bP bR bstops] in HN1, HG1.
+    destruct HN1 as (HP1 & HRd1 & Hs1).
+    split; [exact HW1|]. split; [|split; [exact HG1|apply RC_nil; exact HG1]].
+    unfold NInv. cbn [bw bpcv bP bR]. repeat (split; [first [reflexivity|assumption]|]).
+    destruct HRd as (_ & _ & _ & Ha & _). cbn [w_cancel nodes]. eapply is_canc_self; exact Ha.
+  - (* BNew *)
+    rename HN into HP. destruct HG as [Hnil Hst]. inversion Hm; subst s'; clear Hm.
+    split; [apply WInv_addnode; exact HW|]. split; [|split; [|apply RC_nil; exact Hnil]].
+    + unfold NInv. cbn [bw bpcv bP bR w_child w_addnode nodes].
+      split; [apply Pdef_snoc; exact HP|]. split; [exact (Rdef_child primary nenv (nodes w) P HP)|].
+      rewrite is_canc_snoc_new. cbn [canc]. intros Hk. destruct HP as [_ HP]. destruct primary as [p|].
+      * destruct HP as [-> Hp]. left. exists p. split; [reflexivity|]. apply is_canc_snoc_mono. exact Hk.
+      * destruct HP as (-> & _ & _ & Hk' & _). congruence.
+    + unfold GInv. cbn [bw bpcv bR bstops w_child w_addnode regs]. rewrite Hnil, Hst. split; [reflexivity|]. intros j o Hj. lia.
+  - (* BReg *)
+    destruct HN as (HP & HRd & HK). destruct HG as [Hlen Hcov].
+    assert (Hallc : forall k x, nth_error (regs w) k = Some x ->
+              rfn x = FAct (ACancel R) /\ In (Some (rnode x)) others /\ In k stops /\
+              (forall f, rst x = Run f -> f = FAct (ACancel R)) /\ (rst x = Done \/ rst x = Stopped -> is_canc (nodes w) R = true)).
+    { intros k x Hx. destruct (HR k x Hx) as [HC|(_ & _ & _ & Hret & _)]; [exact HC|discriminate]. }
+    destruct (nth_error others i) as [[o|]|] eqn:Eo; inversion Hm; subst s'; clear Hm; cbn [bset bw bpcv bP bR bstops].
+    + (* register on o *)
+      assert (Hin : In (Some o) others) by (eapply nth_error_In; eauto).
+      split; [apply WInv_afterfunc; [exact HW|destruct HP as [Hl _]; specialize (Hwo o Hin); lia]|].
+      split; [unfold NInv; cbn [bw bpcv bP bR w_afterfunc nodes]; auto|]. split.
+      * unfold GInv. cbn [bw bpcv bR bstops w_afterfunc regs]. rewrite !app_length. cbn [length]. split; [lia|].
+        intros j o' Hj Ho'. destruct (Nat.eq_dec j i) as [->|Hne].
+        -- exists (length (regs w)). eexists. split; [apply nth_error_snoc_new|]. cbn. split; [reflexivity|congruence].
+        -- destruct (Hcov j o' ltac:(lia) Ho') as (k & x & Hx & Hf & Hn). exists k, x.
+           split; [rewrite nth_error_snoc_old; [exact Hx|eapply nth_error_lt; eauto]|auto].
+      * intros k x Hx. cbn [bw w_afterfunc regs] in Hx. apply nth_error_snoc_inv in Hx. left.
+        cbn [bw bR bstops w_afterfunc nodes]. destruct Hx as [[_ Hx]|[-> ->]].
+        -- destruct (Hallc k x Hx) as (Hf & Hi & Hk & Hrun & Hfin). repeat (split; [first [assumption|apply in_or_app; left; assumption]|]). exact Hfin.
+        -- cbn [rfn rnode rst]. split; [reflexivity|]. split; [exact Hin|]. split; [apply in_or_app; right; left; reflexivity|].
+           destruct (is_canc (nodes w) o); split; try (intros f Hf; congruence); intros [Hf|Hf]; discriminate.
+    + (* nil other *)
+      split; [exact HW|]. split; [unfold NInv; cbn; auto|]. split.
+      * unfold GInv. cbn [bw bpcv bR bstops]. split; [exact Hlen|]. intros j o Hj Ho.
+        destruct (Nat.eq_dec j i) as [->|Hne]; [congruence|apply Hcov; [lia|exact Ho]].
+      * intros k x Hx. left. apply (Hallc k x Hx).
+    + (* end of loop *)
+      split; [exact HW|]. split; [unfold NInv; cbn; auto|]. split.
+      * unfold GInv. cbn [bw bpcv bR bstops]. split; [exact Hlen|]. intros j o Hj Ho.
+        apply nth_error_None in Eo. apply Hcov; [apply nth_error_lt in Ho; lia|exact Ho].
+      * intros k x Hx. left. apply (Hallc k x Hx).
+  - (* BStop *)
+    destruct HN as (HP & HRd & HK). destruct HG as [Hlen Hcov].
+    assert (Hallc : forall k x, nth_error (regs w) k = Some x ->
+              rfn x = FAct (ACancel R) /\ In (Some (rnode x)) others /\ In k stops /\
+              (forall f, rst x = Run f -> f = FAct (ACancel R)) /\ (rst x = Done \/ rst x = Stopped -> is_canc (nodes w) R = true)).
+    { intros k x Hx. destruct (HR k x Hx) as [HC|(_ & _ & _ & Hret & _)]; [exact HC|discriminate]. }
+    inversion Hm; subst s'; clear Hm. cbn [bset bw bpcv bP bR bstops].
+    split; [apply WInv_afterfunc; [exact HW|destruct HRd as [Hlt _]; exact Hlt]|].
+    split; [unfold NInv; cbn [bw bpcv bP bR w_afterfunc nodes]; auto|]. split.
+    + unfold GInv. cbn [bw bpcv bR bstops w_afterfunc regs]. rewrite app_length. cbn [length]. split; [lia|]. split.
+      * intros j o Hj Ho. destruct (Hcov j o Hj Ho) as (k & x & Hx & Hf & Hn). exists k, x.
+        split; [rewrite nth_error_snoc_old; [exact Hx|eapply nth_error_lt; eauto]|auto].
+      * eexists. split; [rewrite <- Hlen; apply nth_error_snoc_new|]. cbn. auto.
+    + intros k x Hx. cbn [bw w_afterfunc regs] in Hx. apply nth_error_snoc_inv in Hx.
+      destruct Hx as [[_ Hx]|[-> ->]].
+      * left. apply (Hallc k x Hx).
+      * right. cbn [rfn rnode rst bw bR bstops bpcv is_retN w_afterfunc regs nodes].
+        split; [reflexivity|]. split; [reflexivity|]. split; [exact Hlen|]. split; [reflexivity|].
+        destruct (is_canc (nodes w) R) eqn:Ek.
+        -- split; [discriminate|]. split; [|intros; discriminate]. intros f Hf. inversion Hf; subst f. exists stops. split; [reflexivity|].
+           intros j y Hy Hp. apply nth_error_snoc_inv in Hy. destruct Hy as [[_ Hy]|[_ ->]].
+           ++ apply (Hallc j y Hy).
+           ++ cbn in Hp. discriminate.
+        -- split; [discriminate|]. split; intros; discriminate.
 Qed.
